@@ -27,6 +27,10 @@ type Scenario struct {
 	Fn func(*xplor.Ctx)
 	// Bound per tier (deviation bound).
 	QuickBound, ThoroughBound int
+	// Serial: one worker (the scenario touches what could be process-global in a broken tree).
+	Serial bool
+	// StopIfViolated: later scenarios of the check are not run when this one reported a violation.
+	StopIfViolated bool
 }
 
 // Check is the registration of one property's check.
@@ -218,6 +222,9 @@ func writeReplay(prop, tier string, f Found) string {
 func runScenario(c *Check, rc *RunCtx, rep *Report, s Scenario, bound int) {
 	scn := s
 	ex := &xplor.Explorer{Bound: bound, Workers: rc.Workers, Scenario: scn.Fn, Deadline: rc.Deadline}
+	if s.Serial {
+		ex.Workers = 1
+	}
 	res := ex.Explore()
 	rep.Executions += res.Executions
 	rep.Skipped += res.Skipped
@@ -262,7 +269,13 @@ func RunCheck(c *Check, rc *RunCtx) int {
 		if bound < 0 {
 			continue // scenario not part of this tier
 		}
+		nv := len(rep.Violations)
 		runScenario(c, rc, rep, s, bound)
+		if s.StopIfViolated && len(rep.Violations) > nv {
+			rep.Exhaustive = false
+			fmt.Fprintf(os.Stderr, "[%s/%s] reported violations: the remaining scenarios are not run\n", c.ID, s.Name)
+			break
+		}
 	}
 	if c.Custom != nil && (rc.Only == "" || rc.Only == "custom") {
 		switch {
